@@ -244,12 +244,33 @@ class RefWire(object):
         else:
             self._enc_struct(t, val, e, buf, spans)
 
+    def last_member_offset(self, tname, val):
+        """Offset of the first wire field of the last member of the outermost struct."""
+        self._depth = 0
+        self._last_member_at = None
+        self.encode(tname, val, '<')
+        return self._last_member_at
+
+    _depth = 0
+    _last_member_at = None
+
     def _enc_struct(self, st, val, e, buf, spans):
+        self._depth += 1
+        try:
+            self._enc_struct_body(st, val, e, buf, spans)
+        finally:
+            self._depth -= 1
+
+    def _enc_struct_body(self, st, val, e, buf, spans):
         _, salign, _ = self.layout(st.name)
         sizers = st.sizers()
+        seen_last = False
         for f in self.wire_fields(st):
             m = f.member
             self._pad_to(buf, f.block_align)
+            if self._depth == 1 and m is st.members[-1] and not seen_last:
+                seen_last = True
+                self._last_member_at = len(buf)
             if m.name in sizers:  # plain integer member whose value is the length of its arrays
                 lens = set(len(val[a]) for a in sizers[m.name])
                 assert len(lens) == 1, "arrays sharing a sizer must have equal lengths"
